@@ -127,6 +127,9 @@ func UseOfResult(fl *Flow, p *Path, ci int) ResultUse {
 		// the call is (part of) a branch condition
 		for j := ci + 1; j < len(p.Ev); j++ {
 			b := p.Ev[j]
+			if b.Depth > ev.Depth {
+				continue // inside an inlined callee
+			}
 			if b.Kind == EvBranch && b.Cond == node {
 				c := ast.Unparen(node)
 				neg := false
@@ -167,13 +170,16 @@ func UseOfResult(fl *Flow, p *Path, ci int) ResultUse {
 	// find the assign event of this node (it follows the call event)
 	j := ci + 1
 	for ; j < len(p.Ev); j++ {
-		if p.Ev[j].Kind == EvAssign && p.Ev[j].Node == ev.Node {
+		if p.Ev[j].Kind == EvAssign && p.Ev[j].Node == ev.Node && p.Ev[j].Depth == ev.Depth {
 			j++
 			break
 		}
 	}
 	for ; j < len(p.Ev); j++ {
 		e := p.Ev[j]
+		if e.Depth > ev.Depth {
+			continue // inside an inlined callee: its variables are not the caller's
+		}
 		switch e.Kind {
 		case EvAssign:
 			if e.Deferred {
@@ -242,7 +248,7 @@ func isNamedResult(fl *Flow, obj types.Object) bool {
 func ExitGuardKey(fl *Flow, p *Path) string {
 	for i := len(p.Ev) - 1; i >= 0; i-- {
 		e := p.Ev[i]
-		if e.Deferred {
+		if e.Deferred || e.Depth > 0 {
 			continue
 		}
 		switch e.Kind {
@@ -376,7 +382,7 @@ func LostAfterNonNil(fl *Flow, p *Path, use ResultUse) string {
 	}
 	for j := use.At + 1; j < len(p.Ev); j++ {
 		e := p.Ev[j]
-		if e.Deferred {
+		if e.Deferred || e.Depth > p.Ev[use.At].Depth {
 			continue
 		}
 		switch e.Kind {
@@ -399,4 +405,40 @@ func LostAfterNonNil(fl *Flow, p *Path, use ResultUse) string {
 		return ""
 	}
 	return "the failing branch falls off the end of the function"
+}
+
+// OwnOnly strips the events of inlined callees from the paths (and merges the paths that then
+// coincide): the view of a function's own statements, for rules that judge each function on the
+// code written in it (who-may-do-what tables, per-site error discipline).
+func OwnOnly(paths []Path) []Path {
+	var out []Path
+	seen := map[string]bool{}
+	for _, p := range paths {
+		np := Path{Exit: p.Exit}
+		var sig strings.Builder
+		for _, e := range p.Ev {
+			if e.Depth > 0 {
+				continue
+			}
+			e.Inlined = false
+			np.Ev = append(np.Ev, e)
+			sig.WriteString(itoa(int(e.Pos)))
+			sig.WriteByte(':')
+			sig.WriteString(itoa(int(e.Kind)))
+			if e.Taken {
+				sig.WriteByte('t')
+			}
+			if e.Deferred {
+				sig.WriteByte('d')
+			}
+			sig.WriteByte(' ')
+		}
+		sig.WriteString(itoa(int(p.Exit)))
+		if seen[sig.String()] {
+			continue
+		}
+		seen[sig.String()] = true
+		out = append(out, np)
+	}
+	return out
 }
